@@ -51,6 +51,12 @@ CHECKS.update({
             'Narrow claim: sorted dictionary before index assignment, codec-op property tables one-sidedly '
             'safe, comparison registry rows mutually consistent. Comparison results, constant translation, '
             'NULL semantics NOT decided.', '5/C03'),
+    'C04': ('syntax-tree table rules over the aggregator pipeline: SQL name -> aggregator -> planner arm '
+            '(TBL-15), marker type operations and neutral elements (TBL-16), merge of partial aggregates and '
+            'its plumbing (TBL-14), checked SUM (CHK-8)',
+            'Narrow claim: every aggregate keeps its kind from the SQL text to the operator, accumulates / '
+            'combines / merges across partitions with its own operation, NULL partial results yield the other '
+            'side. Group identity and the per-group values are NOT decided.', '5/C04'),
     'C05': ('interprocedural MIR taint of LIMIT/OFFSET values (FLW-1), who-reads-offset (ORD-2), MIR structure of the multi-key sort and the top-n guard (ORD-13), abstract evaluation of the comparator syntax trees on all orderings of two keys (TBL-13)',
             'Narrow claim: no unchecked arithmetic on the limit sentinel / offset and single application of the '
             'offset, stable last-to-first multi-key sort, top-n only for one key and never with n = 0, comparator impls mutually consistent incl. NULL placement for string keys. The order produced by the sort operators and the merge of sorted partial results NOT decided.', '5/C05'),
@@ -87,9 +93,6 @@ NA = {
            'compaction state, batch size, thread count) is a relation between runtime values produced by '
            'different data-dependent plans; no clause of it is visible in the shape of the code and no sound '
            'static argument is in reach (DESIGN.md section 9)',
-    'C04': 'not applicable to static analysis: group identity, per-group COUNT/MIN/MAX/AVG values and the '
-           'sorted-merge precondition are properties of computed data; the only structural part (checked SUM) '
-           'is decided under C06 (DESIGN.md section 9)',
 }
 
 
